@@ -327,6 +327,9 @@ def on_solve(algo, mps, qn_mask, ltensor, rtensor, cmo, omega, e, c):
                 mid = cst.reshape(cst.shape[0], -1, cst.shape[-1])
                 psi = np.einsum("la,apb,br->lpr", left, mid, right, optimize=True).reshape(-1)
                 n2 = float(np.real(np.vdot(psi, psi)))
+                if n2 < 1e-300:
+                    rec["zero_state"] = True          # P c = 0 for c != 0: P is not an isometry
+                    continue
                 nrm.append(n2 / float(np.real(np.vdot(ci, ci))))
                 dense_e.append(float(np.real(np.vdot(psi, hd @ psi)) / n2) * inverse)
                 out_w = max(out_w, float(np.linalg.norm(psi[~sector])) / np.sqrt(n2))
